@@ -79,6 +79,8 @@ struct Animator {
     features: Vec<&'static str>,
     /// builder twin: from_state / from_values after the `on` calls
     defaults_last: bool,
+    long_paths: bool,
+    trailing_comma: bool,
 }
 
 fn time_lit(rng: &mut Rng) -> TimeLit {
@@ -451,16 +453,31 @@ fn gen_animator(rng: &mut Rng) -> Animator {
     }
     features.sort();
     features.dedup();
+    let long_paths = rng.chance(0.25);
+    let trailing_comma = rng.chance(0.3);
+    if long_paths {
+        features.push("long-paths");
+    }
+    if trailing_comma {
+        features.push("trailing-comma");
+    }
+    features.sort();
+    features.dedup();
     Animator {
         defaults,
         arms,
         features,
         defaults_last,
+        long_paths,
+        trailing_comma,
     }
 }
 
 fn render_macro(a: &Animator) -> String {
-    let mut s = String::from("animator!(MVals {\n");
+    // surface variety that must not matter: the target type, the states and the easings may be
+    // written as plain or as longer paths; the last arm may be followed by a comma
+    let ty = if a.long_paths { "crate::MVals" } else { "MVals" };
+    let mut s = format!("animator!({ty} {{\n");
     match &a.defaults {
         Defaults::None => {}
         Defaults::StateOnly(st) => {
@@ -511,7 +528,13 @@ fn render_macro(a: &Animator) -> String {
         })
         .collect();
     s.push_str(&arms.join(",\n"));
+    if a.trailing_comma {
+        s.push(',');
+    }
     s.push_str("\n})");
+    if a.long_paths {
+        s = s.replace("MSt::S", "crate::MSt::S").replace(" Easing::", " mina::Easing::");
+    }
     s
 }
 
